@@ -102,15 +102,19 @@ pub fn stc_w<S: Src>(s: &mut S, mode: u8, am: u8) {
         // post-increment store: word written at ERd (not ERd-2) and ERd += 2.
         let mut exp_er = c.pre.er;
         exp_er[f as usize] = base.wrapping_add(2);
-        let known_wrong_regs = regs_eq(&c.cpu.er, &exp_er);
-        a.regs = kf!(KF_C08_STC_W_PREDEC_REG, known_wrong_regs, a.regs);
-        a.mem = kf!(KF_C08_STC_W_PREDEC_EA, known_wrong_regs, a.mem);
-        a.states = kf!(KF_C20_STC_W_PREDEC_COST, known_wrong_regs, a.states);
+        let emu_ea = base & 0xffffff;
+        let emu_mapped = mem::accessible(emu_ea) && mem::accessible(emu_ea + 1);
+        // exactly the post-increment outcome: store at ERd then ERd += 2, or an access error with no change
+        let known_wrong = if emu_mapped { r.is_ok() && regs_eq(&c.cpu.er, &exp_er) } else { r.is_err() && regs_eq(&c.cpu.er, &c.pre.er) };
+        a.outcome = kf!(KF_C08_STC_W_PREDEC_OUTCOME, known_wrong, a.outcome);
+        a.regs = kf!(KF_C08_STC_W_PREDEC_REG, known_wrong, a.regs);
+        a.mem = kf!(KF_C08_STC_W_PREDEC_EA, known_wrong, a.mem);
+        a.states = kf!(KF_C20_STC_W_PREDEC_COST, known_wrong, a.states);
     }
     let ok = r.is_ok();
     witness!(when: am != ST_A16 && am != ST_A24, ok && base > 0xffffff && ea >= 0x400000 && ea < 0x600000, "store to DRAM via register with non-zero upper byte");
     witness!(when: am == ST_A16 || am == ST_A24, ok && ea >= 0xffbf20, "store to on-chip RAM");
-    witness!(ok && mem::window_written(0) || cfg!(not(kani)), "operand window written");
+    witness!(when: am != ST_DEC, ok && mem::window_written(0) || cfg!(not(kani)), "operand window written");
     std::mem::forget(c);
     ih::conclude(a, mode);
 }
